@@ -32,5 +32,5 @@ def run(tier):
               soft_problem_rx=r"loop bound \d+ exceeded in \(\*github.com/VKCOM/tl/internal/pure/onthefly\.KernelValueArray\)\.resize|exploration truncated")
     c.programs = 1
     c.assumptions += ["the kernel (pure.NewKernel, Compile) and the onthefly value tree run CONCRETELY inside the engine on schemas/p/c12.tl (the schema text is added through an overlay method that does what AddFileTL1 does after reading the file); the generated code for the same schema is regenerated from the working tree and overlaid into the same program",
-                      "types: f02.local (local masks, %True, string, long) and f04.arrays (nat-sized array, vectors, nested tuples, vector of strings); TL1 bare and boxed; inputs = all byte strings of symbolic length <= N"]
-    return c.finish(bounds=params, outside=["inputs declaring more than 11 array elements (the interpreter's KernelValueArray.resize allocates the declared count before any length check; such paths are cut at the loop bound and listed under not_covered)", "TL2 and JSON of the interpreter", "types other than the two", "interpreter-only features (UI, Random)"])
+                      "types: f02.local (local masks, %True, string, long), f04.arrays (nat-sized array, vectors, nested tuples, vector of strings) and c12.table (vector of structs with a # parameter whose fields take different nat arguments); TL1 bare and boxed; inputs = all byte strings of symbolic length <= N"]
+    return c.finish(bounds=params, outside=["inputs declaring more than 11 array elements (the interpreter's KernelValueArray.resize allocates the declared count before any length check; such paths are cut at the loop bound and listed under not_covered)", "TL2 and JSON of the interpreter", "types other than the three", "interpreter-only features (UI, Random)"])
